@@ -5,7 +5,7 @@ from checks.common import swarm
 ID = 'C06'
 LEVEL = 'exploration'
 NEEDS = ('threads', 'aio')
-QUICK = dict(runs=10000, wall=85)
+QUICK = dict(runs=25000, wall=85)
 THOROUGH = dict(runs=400000, wall=1500)
 RULE = ('scenario = Server/AsyncServer with capacity 1..4 over a thread servlet (1-3 workers, optional batching, virtual service times), '
         '2-5 concurrent callers + streams; run class "clean" (no deadlines, no aborts) or "faulty" (failing inputs, deadlines around the '
